@@ -36,6 +36,7 @@ SIG_D8 = "Mps.evolve:prop_and_compress_tdrk:input-canonicalised-compressed-in-pl
 
 REL = 1e-9      # 'equal up to rounding' for re-gauged inputs: |d repr| <= REL * |repr| (+ tiny absolute)
 SEEN = {}
+TIMES = {}
 
 
 # ------------------------------------------------------------------------------------ snapshots
@@ -45,7 +46,7 @@ def chain_repr(mp):
         return None
     d = L.dense_chain(arrs)
     c = getattr(mp, "coeff", 1)
-    return np.asarray(d * c)
+    return np.asarray(d * c, dtype=complex)
 
 
 def cfg_items(obj):
@@ -594,12 +595,14 @@ def run_chain_call(run, env, thunk):
     if name == "evolve:prop_and_compress_tdrk":
         d8_probe = env.objs[args[0]].copy()
     before = {k: Snap(v) for k, v in env.objs.items()}
+    tc = time.time()
     try:
         result = call()
         exc = None
     except Exception as e:
         exc = e
         result = None
+    TIMES[name] = TIMES.get(name, 0.0) + time.time() - tc
     run.count(f"op:{name}")
     after = {k: Snap(v) for k, v in env.objs.items()}
     if exc is not None:
@@ -676,6 +679,112 @@ def _is_d8(probe, obj_after):
     return len(a) == len(b) and all(x.shape == y.shape and x.tobytes() == y.tobytes() for x, y in zip(a, b))
 
 
+# ------------------------------------------------------------------------------------ chain interference programs
+def chain_program(run, env):
+    """derive b from a; mutate one in place by a public mutator; observe the other (bitwise)"""
+    rng = env.rng
+    a_name = env.pick(env.states() + env.mpos())
+    a = env.objs[a_name]
+    is_state = hasattr(a, "coeff")
+    prods = ["copy", "conj", "to_complex", "scale", "scale1", "add", "applied", "copycopy", "conj_trans", "from_mps", "evolve"]
+    p = str(rng.choice(prods))
+    try:
+        if p == "copy":
+            b = a.copy()
+        elif p == "copycopy":
+            b = a.copy().copy()
+        elif p == "conj":
+            b = a.conj()
+        elif p == "to_complex":
+            b = a.to_complex()
+        elif p == "scale":
+            b = a.scale(-0.5)
+        elif p == "scale1":
+            b = a.scale(1.0)
+        elif p == "add":
+            b = a.add(a.copy().scale(0.5)) if not isinstance(a, Mps) or isinstance(a, MpDm) else a.add(a.copy())
+        elif p == "applied":
+            O = env.objs[env.pick(env.mpos())]
+            b = O.apply(a)
+        elif p == "conj_trans":
+            if is_state:
+                return
+            b = a.conj_trans()
+        elif p == "from_mps":
+            if not (isinstance(a, Mps) and not isinstance(a, MpDm)):
+                return
+            b = MpDm.from_mps(a)
+        else:
+            if not is_state:
+                return
+            a.evolve_config = EvolveConfig(EvolveMethod.tdvp_ps if rng.random() < 0.5 else EvolveMethod.prop_and_compress)
+            a.compress_config = CompressConfig(CompressCriteria.fixed, max_bonddim=16)
+            b = a.evolve(env.H0, 0.05)
+    except Exception as e:
+        run.count(f"rejected:program:{p}:{type(e).__name__}")
+        return
+    if b is a or any(m is None for m in b._mp):
+        return
+    muts = ["canonicalise", "compress", "scale_inplace", "normalize", "move_qnidx", "to_complex_inplace", "setitem", "fold"]
+    m = str(rng.choice(muts))
+    target_is_b = bool(rng.random() < 0.6)
+    t, other = (b, a) if target_is_b else (a, b)
+    o_before = observe(other)
+    try:
+        if m == "canonicalise":
+            t.ensure_left_canonical() if rng.random() < 0.5 else t.ensure_right_canonical()
+            if t.site_num >= 3:
+                k = int(rng.integers(1, t.site_num - 1))
+                t.canonicalise(stop_idx=k)
+        elif m == "compress":
+            t.ensure_right_canonical()
+            t.compress(temp_m_trunc=1)
+        elif m == "scale_inplace":
+            t.scale(complex(0.0, -3.0) if rng.random() < 0.5 else 2.5, inplace=True)
+        elif m == "normalize":
+            if not hasattr(t, "coeff"):
+                return
+            t.normalize(str(rng.choice(["mps_only", "mps_and_coeff", "mps_norm_to_coeff"])))
+        elif m == "move_qnidx":
+            t.move_qnidx(int(rng.integers(0, t.site_num)))
+        elif m == "to_complex_inplace":
+            t.to_complex(inplace=True)
+        elif m == "setitem":
+            i = int(rng.integers(0, t.site_num))
+            t[i] = np.array(t[i].array) * 0.25
+        else:
+            if not (isinstance(t, Mps)):
+                return
+            u = t.copy()
+            u.coeff = complex(u.coeff) * 3.0 + 0.5
+            t.add(u)      # folds the coefficients into t and u in place (allowed write to t)
+    except Exception as e:
+        run.count(f"rejected:program:{p}:{m}:{type(e).__name__}")
+        return
+    run.count(f"program:{p}:{m}")
+    o_after = observe(other)
+    if o_before != o_after:
+        which = "derived-changes-source" if target_is_b else "source-changes-derived"
+        what = "repr" if o_before[0] != o_after[0] else "labels(canonicalised-copy)"
+        report(run, f"interference:{p}:{m}:{which}:{what}",
+               dict(env=env.desc, source=a_name, producer=p, mutator=m, mutated="derived" if target_is_b else "source",
+                    cls=type(a).__name__, source_state=L.ser_mp(a), derived_state=L.ser_mp(b)))
+    # the mutated source must not stay in the pool with a different meaning for later D8/D3 probes: fine, it is
+    # still a valid object; derived objects are dropped.
+
+
+def model_copy_program(run, env):
+    m = env.model
+    keys = sorted(m.mpos.keys())
+    basis_ids = [id(b) for b in m.basis]
+    c = m.copy()
+    c.mpos["__probe__"] = 1
+    c.basis.reverse()
+    run.count("program:Model.copy")
+    if sorted(m.mpos.keys()) != keys or [id(b) for b in m.basis] != basis_ids:
+        report(run, "interference:Model.copy:mutating-the-copy-changes-the-original", dict(env=env.desc))
+
+
 # ------------------------------------------------------------------------------------ driver
 def search(run, rng, quick):
     SEEN.clear()
@@ -699,6 +808,10 @@ def search(run, rng, quick):
                 distinct.add((env.kind, env.log[-1]["op"], str(sorted(env.log[-1].items()))))
             if time.time() - t0 > budget * 0.6:
                 break
+        for _ in range(6 if quick else 12):
+            chain_program(run, env)
+            nev += 1
+        model_copy_program(run, env)
         run.sample(dict(env=env.desc, ops=[l["op"] for l in env.log][:10]))
     run.cov["evaluations"] = run.cov.get("evaluations", 0) + nev
     run.cov["distinct_nontrivial"] = len(distinct)
